@@ -19,4 +19,12 @@ def queries(tier):
         qs.append(Q(f'{fam}_k{k}_a{na}_b{nb}_m{mg}', 'quant', 'c07_quant.c', defs=dict({'FAM': fam, 'KK': k, 'KK2': k2, 'NA': na, 'NB': nb, 'MERGE': mg, 'MAXRET': mr}, **({'LIGHT': None} if na + nb > 4 else {})),
                     unwind=max(na + nb, 8) + 4, unwindset={'^(harness|run|verif_mem.*|verif_new.*)$': 50}, timeout=(300 if tier == 'quick' else 1800), native_vectors=200,
                     c_defs={'VERIF_NEW_CAPN': 64, 'VERIF_VEC_CAP': 32}, mem_gb=(10 if tier == 'quick' else 28)))
+    # classic quantiles iterator on injected (k, n) structures, incl. empty base buffer with empty low levels (n multiple of 4k)
+    for (k, n) in [(2, 3), (2, 4), (2, 6), (2, 8), (2, 12), (2, 16), (2, 19), (4, 32), (4, 16), (8, 64)]:
+        qs.append(Q(f'qs_iter_k{k}_n{n}', 'quant', 'c07_qs_iter.c', defs={'KK': k, 'NN': n}, unwind=30, unwindset={'^(harness|verif_mem.*|verif_new.*)$': 70}, timeout=(300 if tier == 'quick' else 1500),
+                    native_vectors=100, c_defs={'VERIF_NEW_CAPN': 64, 'VERIF_VEC_CAP': 32}, mem_gb=10))
+    # kll iterator on injected level populations, incl. empty level 0 / empty intermediate levels
+    for name, pops in [('p3', '3'), ('p04', '0,4'), ('p104', '1,0,4'), ('p0004', '0,0,0,4'), ('p222', '2,2,2'), ('p020', '0,2,0')]:
+        qs.append(Q(f'kll_iter_{name}', 'quant', 'c07_kll_iter.c', defs={'POPS': pops}, unwind=14, unwindset={'^(harness|verif_mem.*|verif_new.*)$': 70}, timeout=(300 if tier == 'quick' else 1500),
+                    native_vectors=100, c_defs={'VERIF_NEW_CAPN': 64, 'VERIF_VEC_CAP': 32}, mem_gb=10))
     return qs
